@@ -1,10 +1,11 @@
 ---------------------------- MODULE RegistryTrace ----------------------------
 (***************************************************************************)
 (* Trace refinement of Registry.  The harness drives the real registry     *)
-(* (unified and plain variant) through the real discovery service with     *)
-(* scripted HTTP listings, waits until every asynchronous merge it started *)
-(* has run, and dumps the four views after every operation.  Every dump    *)
-(* must agree with the reference attribution `last`.                       *)
+(* (registry.NewModelRegistry, unified and plain variant) through the real *)
+(* discovery service and HTTP discovery client with scripted listings,     *)
+(* waits until every asynchronous merge it started has run, and dumps the  *)
+(* four views after every operation.  Every dump must agree with the       *)
+(* reference attribution `last`.                                           *)
 (*                                                                         *)
 (* Whether an update succeeded is decided by what the ENVIRONMENT did      *)
 (* (HTTP 200 + parsable listing = success; anything else = failure), not   *)
@@ -13,8 +14,10 @@
 EXTENDS Registry, TraceLib
 
 CONSTANT KnownDeviations
-VARIABLES l, variant
-tvars == <<vars, l, variant>>
+VARIABLES l, variant,
+          pend,    \* attributions registered since the last dump (ghost for KF-C10-2)
+          ustore   \* attributions the unifier's own catalogue holds (ghost for KF-C10-4)
+tvars == <<vars, l, variant, pend, ustore>>
 
 Is(name) == l <= NEv /\ TLog[l].ev = name
 E == TLog[l]
@@ -26,40 +29,59 @@ TReset == /\ Is("Reset")
           /\ flt' = [e \in Eps |-> FltOf(E.flt[e])]
           /\ last' = [e \in Eps |-> {}] /\ lastN' = [e \in Eps |-> 0] /\ known' = {}
           /\ perEp' = [e \in Eps |-> {}] /\ idx' = {} /\ uni' = {} /\ dirty' = {}
-          /\ act' = "Init" /\ variant' = E.variant
+          /\ act' = "Init" /\ variant' = E.variant /\ pend' = {} /\ ustore' = {}
           /\ l' = l + 1 /\ UNCHANGED scn
 
-\* the model's own views follow the reference; the observed ones are compared in TDump
-TReg  == Is("Reg") /\ E.e \in Eps /\ act' = "Reg" /\ Accept(E.e, Kept(Listing(E.L), flt[E.e])) /\ Consume
-TBad  == /\ Is("Bad") /\ E.e \in Eps
-         /\ IF E.rejected THEN act' = "Bad" /\ UNCHANGED core
-            ELSE RegisterDirect(E.e, SelectSeq(Listing(E.L), LAMBDA x : x.n # <<>>))
-         /\ Consume
-TFail == Is("Fail") /\ E.e \in Eps /\ act' = "Fail" /\ UNCHANGED core /\ Consume
-TRm   == /\ Is("Rm") /\ E.e \in Eps /\ act' = "Rm"
-         /\ last'  = [last  EXCEPT ![E.e] = {}] /\ lastN' = [lastN EXCEPT ![E.e] = 0]
-         /\ known' = known \ {E.e}
-         /\ perEp' = [perEp EXCEPT ![E.e] = {}]
-         /\ idx' = idx \ Pairs(E.e, perEp[E.e]) /\ uni' = NotOf(uni, E.e)
-         /\ UNCHANGED <<flt, dirty>>
-         /\ Consume
+-----------------------------------------------------------------------------
+(* operations: the recorded event is turned into the step S = [endpoints -> op] of Registry   *)
+OpEvents == {"Reg", "Fail", "Rm", "Burst", "Par"}
+ParEps(ops) == {ops[i].e : i \in 1..Len(ops)}
+ParOp(o) == IF o.op = "Reg" THEN OpReg(Listing(o.L)) ELSE IF o.op = "Rm" THEN OpRm ELSE OpNone("Fail")
+ParS(ops) == [e \in ParEps(ops) |-> ParOp(ops[CHOOSE i \in 1..Len(ops) : ops[i].e = e])]
+EvS == CASE E.ev = "Reg"   -> E.e :> OpReg(Listing(E.L))
+         [] E.ev = "Fail"  -> E.e :> OpNone("Fail")
+         [] E.ev = "Rm"    -> E.e :> OpRm
+         [] E.ev = "Burst" -> E.e :> OpReg(Listing(E.L2))
+         [] E.ev = "Par"   -> ParS(E.ops)
+EvWellFormed == IF E.ev = "Par"
+                THEN Cardinality(ParEps(E.ops)) = Len(E.ops) /\ \A i \in 1..Len(E.ops) : E.ops[i].op \in {"Reg", "Rm", "Fail"}
+                ELSE TRUE
+Removed(S) == {e \in DOMAIN S : S[e].op = "Rm"}
+PendOf(S)  == UNION {Pairs(e, OpNames(e, S[e])) : e \in DOMAIN S}
+OpCore == /\ l <= NEv /\ E.ev \in OpEvents /\ EvWellFormed
+          /\ DOMAIN EvS \subseteq Eps
+          /\ act' = E.ev /\ Apply(EvS)
+          /\ pend' = pend \cup PendOf(EvS)
+                     \cup (IF E.ev = "Burst" THEN Pairs(E.e, OpNames(E.e, OpReg(Listing(E.L1)))) ELSE {})
+          /\ Consume
+TOp == OpCore /\ ustore' = {p \in ustore : p[2] \notin Removed(EvS)}
 
+\* a list with a nameless entry pushed through the registry API
+TBad  == /\ Is("Bad") /\ E.e \in Eps
+         /\ IF E.rejected THEN act' = "Bad" /\ Apply(E.e :> OpNone("Bad")) /\ pend' = pend
+            ELSE LET L == SelectSeq(Listing(E.L), LAMBDA x : x.n # <<>>) IN
+                 act' = "Direct" /\ Apply(E.e :> OpDir(L)) /\ pend' = pend \cup Pairs(E.e, Names(L))
+         /\ Consume /\ UNCHANGED ustore
+
+-----------------------------------------------------------------------------
+(* dumps *)
 BaseViewsOK == /\ \A e \in Eps : PerEpOK(e, E.perEp[e]) /\ CountOK(e, E.cnt[e])
                /\ E.cntExtra = 0
                /\ TotalModelsOK(E.totM) /\ TotalEpsOK(E.totE)
 \* base index alone, then the registry's own answer (which, for the unified registry, may also
-\* consult the unified catalogue U = the model catalogue after this quiescence)
+\* consult the unified catalogue U = the model catalogue after this quiescence, and the unifier)
 LookupsOK(U) == \A i \in 1..Len(E.look) :
                    LET k == E.look[i] IN
                    /\ Range(k.base) \subseteq Eps /\ Range(k.eps) \subseteq Eps
                    /\ LookupBaseOK(k.m, Range(k.base))
                    /\ AvailOK(k.m, k.availBase, idx, idx)
-                   /\ LookupOK(k.m, Range(k.eps), idx \cap AllPairs, idx \cup U)
-                   /\ AvailOK(k.m, k.avail, idx \cap AllPairs, idx \cup U)
+                   /\ LookupOK(k.m, Range(k.eps), idx \cap AllPairs, idx \cup U \cup ustore')
+                   /\ AvailOK(k.m, k.avail, idx \cap AllPairs, idx \cup U \cup ustore')
 UnifiedOK(U) == E.hasUni => UComplete(E.uni) /\ USound(E.uni, U)
 
 DumpWith(Q) == /\ Is("Dump") /\ E.quiet
-               /\ Q /\ act' = "Dump"
+               /\ Q /\ act' = "Dump" /\ pend' = {}
+               /\ ustore' = {p \in ustore : p[2] \notin dirty} \cup UNION {Pairs(e, last[e]) : e \in dirty}
                /\ BaseViewsOK /\ LookupsOK(uni') /\ UnifiedOK(uni')
                /\ Consume
 TDump == DumpWith(Quiesce)
@@ -72,7 +94,7 @@ TDump == DumpWith(Quiesce)
 (* A rejected update therefore leaves per-endpoint listing and counts intact but corrupts the  *)
 (* model -> endpoints lookup: the endpoint's current models are no longer found, the rejected  *)
 (* list's leading entries are.  (Later updates only un-index what the per-endpoint listing     *)
-(* names, which is how Registry!Accept / Remove are written, so the wrong entries persist.)    *)
+(* names -- which is how Registry!Apply is written -- so the wrong entries persist.)           *)
 FirstNameless(L) == CHOOSE i \in 1..Len(L) : L[i].n = <<>> /\ \A j \in 1..(i - 1) : L[j].n # <<>>
 KF_C10_1 == /\ "KF-C10-1" \in KnownDeviations
             /\ Is("Bad") /\ E.e \in Eps /\ E.rejected /\ HasNameless(Listing(E.L))
@@ -80,29 +102,37 @@ KF_C10_1 == /\ "KF-C10-1" \in KnownDeviations
             /\ LET L == Listing(E.L) IN
                idx' = (idx \ Pairs(E.e, perEp[E.e])) \cup Pairs(E.e, Names(SubSeq(L, 1, FirstNameless(L) - 1)))
             /\ idx' # idx
-            /\ UNCHANGED <<flt, last, lastN, known, perEp, uni, dirty>>
+            /\ UNCHANGED <<flt, last, lastN, known, perEp, uni, dirty, pend, ustore>>
             /\ Consume /\ UseDeviation("KF-C10-1")
 
 (* KF-C10-2: the unified registry merges a new listing INTO the existing global entries        *)
 (* (unifyModelsAsync: group + MergeUnifiedModels with the stored entry) and never removes the  *)
 (* endpoint from entries of models it no longer lists; only RemoveEndpoint does.  The merge    *)
-(* is therefore add-only.                                                                      *)
-MergeOnlyQuiesce == /\ uni' = uni \cup UNION {Pairs(e, last[e]) : e \in dirty}
+(* is add-only: everything registered since the last dump is added, nothing is dropped.        *)
+MergeOnlyQuiesce == /\ uni' = uni \cup pend
                     /\ dirty' = {}
                     /\ UNCHANGED <<flt, last, lastN, known, perEp, idx>>
 KF_C10_2 == /\ "KF-C10-2" \in KnownDeviations /\ variant = "unified"
-            /\ \E p \in uni : p[2] \in dirty /\ p[1] \notin last[p[2]]
+            /\ \E p \in uni \cup pend : p[2] \in dirty /\ p[1] \notin last[p[2]]
             /\ DumpWith(MergeOnlyQuiesce)
             /\ UseDeviation("KF-C10-2")
+
+(* KF-C10-4: UnifiedMemoryModelRegistry.RemoveEndpoint cleans the global unified entries but   *)
+(* never tells the unifier, whose own catalogue keeps the removed endpoint's models; the       *)
+(* registry's IsModelAvailable / GetEndpointsForModel fall back to that catalogue              *)
+(* (GetUnifiedModel -> unifier.ResolveAlias) and keep finding them.                            *)
+KF_C10_4 == /\ "KF-C10-4" \in KnownDeviations /\ variant = "unified"
+            /\ OpCore /\ \E p \in ustore : p[2] \in Removed(EvS)
+            /\ UNCHANGED ustore /\ UseDeviation("KF-C10-4")
 
 TraceInit == /\ flt = [e \in Eps |-> NoFilter]
              /\ last = [e \in Eps |-> {}] /\ lastN = [e \in Eps |-> 0] /\ known = {}
              /\ perEp = [e \in Eps |-> {}] /\ idx = {} /\ uni = {} /\ dirty = {}
-             /\ act = "Init" /\ scn = <<>> /\ l = 1 /\ variant = "none"
-TraceNext == TReset \/ TReg \/ TBad \/ TFail \/ TRm \/ TDump \/ KF_C10_1 \/ KF_C10_2
+             /\ act = "Init" /\ scn = <<>> /\ l = 1 /\ variant = "none" /\ pend = {} /\ ustore = {}
+TraceNext == TReset \/ TOp \/ TBad \/ TDump \/ KF_C10_1 \/ KF_C10_2 \/ KF_C10_4
+TraceSpec == TraceInit /\ [][TraceNext]_tvars
+HW == HWMark(l)
 
 \* the clause "a rejected or failed update leaves the previous attribution intact" on the reference
 RejectedKeepsRef == [][act' \in {"Bad", "Fail"} => UNCHANGED <<last, lastN, perEp, uni>>]_tvars
-TraceSpec == TraceInit /\ [][TraceNext]_tvars
-HW == HWMark(l)
 =============================================================================
